@@ -99,6 +99,21 @@ pub fn mutate_message(rep: &mut Rep, c: &mut Ctx, msg: &[u8], signal: &[u8], roo
                 }
             }
             rep.stratum(format!("field|{fname}|{ml}"));
+            // consistent tampering: the root condition is made to hold for the modified message (the supplied set
+            // contains the carried - modified - root, alone and in a window together with the genuine one; or the
+            // set is empty, which skips the root condition), so that only the binding of the zk-proof to the carried
+            // values can refuse it. The genuine message was accepted by this instance just before (control above).
+            let carried = m2[128..160].to_vec();
+            let window = [rand_bytes(rng, 32), carried.clone(), roots1.clone()].concat();
+            for (which, roots) in [("set={carried}", carried.clone()), ("set={other,carried,genuine}", window), ("set=empty", vec![])] {
+                rep.ev();
+                let v = v_roots(c, &req2, &roots);
+                note_panic(rep, &v);
+                if v == V::True {
+                    rep.violation(format!("verify_with_roots:accepts-modified-{fname}-when-the-root-condition-holds"), json!({"case": label, "mutation": ml, "field": fname, "root_set": which, "message": hex(&m2)}));
+                }
+                rep.stratum(format!("field-consistent|{fname}|{which}"));
+            }
         }
     }
     // (b) signal and its declared length (verify_rln_proof / verify_with_roots)
@@ -292,6 +307,17 @@ pub fn mutate_tree(rep: &mut Rep, c: &mut Ctx, msg: &[u8], signal: &[u8], member
         if v == V::True && c.model.root() != dec_message(msg).unwrap().1.root {
             rep.violation("verify_rln_proof:accepts-after-tree-change", json!({"case": label, "change": what, "index": idx}));
         }
+        // the same message with the carried root rewritten to the verifier's NEW root: the root condition holds, the
+        // zk-proof is not valid for that root
+        if c.model.root() != dec_message(msg).unwrap().1.root {
+            let mut m3 = msg.to_vec();
+            m3[128..160].copy_from_slice(&enc_fr(&c.model.root()));
+            rep.ev();
+            rep.stratum(format!("tree|{what}|carried-root-rewritten-to-the-new-root"));
+            if v_rln(c, &enc_verify_request(&m3, signal)) == V::True {
+                rep.violation("verify_rln_proof:accepts-root-rewritten-to-the-new-tree-root", json!({"case": label, "change": what, "index": idx}));
+            }
+        }
         // restore the exact leaf value -> root returns -> accepted again (positive control)
         if !c.set(idx, old) {
             rep.inconclusive("restore failed".to_string());
@@ -310,6 +336,12 @@ pub fn mutate_tree(rep: &mut Rep, c: &mut Ctx, msg: &[u8], signal: &[u8], member
         rep.stratum("tree|delete-member");
         if v_rln(c, &req) == V::True {
             rep.violation("verify_rln_proof:accepts-after-tree-change", json!({"case": label, "change": "delete-member", "index": member_index}));
+        }
+        let mut m3 = msg.to_vec();
+        m3[128..160].copy_from_slice(&enc_fr(&c.model.root()));
+        rep.ev();
+        if v_rln(c, &enc_verify_request(&m3, signal)) == V::True {
+            rep.violation("verify_rln_proof:accepts-root-rewritten-to-the-new-tree-root", json!({"case": label, "change": "delete-member", "index": member_index}));
         }
         c.set(member_index, old);
         rep.ev();
@@ -352,7 +384,7 @@ pub fn mutate_tree(rep: &mut Rep, c: &mut Ctx, msg: &[u8], signal: &[u8], member
 }
 
 pub fn run(rep: &mut Rep) {
-    rep.rule = "for each accepted message (different strata of C01's generator): (a) each of root/external nullifier/x/y/nullifier replaced by value+-1, 0, p-1, random and by every other field of the message; (b) signal byte/bit flips, truncation, extension, empty, declared length +-1 with a consistent buffer; (c) single-bit flips of the 1024 proof bits (all of them in thorough and for the first message in quick); (d) verifier tree: unrelated leaf set, far leaf set, member leaf overwritten/deleted, then restored (positive control), then the whole tree replaced by set_tree / init_tree_with_leaves; (e) root sets of size 1..8 without the root, with it at every position, near misses. Every mutated value is compared with the original as a field element first (aliases are C13's subject). distinct_nontrivial = distinct (mutation kind, field/position class) keys".into();
+    rep.rule = "for each accepted message (different strata of C01's generator): (a) each of root/external nullifier/x/y/nullifier replaced by value+-1, 0, p-1, random and by every other field of the message, each also offered to verify_with_roots with a root set that makes the root condition hold for the modified message (the carried value alone, a window with it and the genuine root, the empty set); (b) signal byte/bit flips, truncation, extension, empty, declared length +-1 with a consistent buffer; (c) single-bit flips of the 1024 proof bits (all of them in thorough and for the first message in quick); (d) verifier tree: unrelated leaf set, far leaf set, member leaf overwritten/deleted, after each change also the message with its carried root rewritten to the verifier's new root, then restored (positive control), then the whole tree replaced by set_tree / init_tree_with_leaves; (e) root sets of size 1..8 without the root, with it at every position, near misses. Every mutated value is compared with the original as a field element first (aliases are C13's subject). distinct_nontrivial = distinct (mutation kind, field/position class) keys".into();
     rep.assumptions = vec!["Groth16 soundness (a proof for different public values is not forgeable by bit flips)".into(), "panics count as 'not true' here; crash-freedom is C13's".into()];
     let thorough = rep.thorough();
     let mut rng = rng_for(rep.seed, "c02");
